@@ -17,8 +17,40 @@ func clMergeHeapReset(c *Ctx) {
 	for _, name := range []string{"SeekFirst", "Seek"} {
 		fn := p.Func("skiplist", "MergeIterator", name)
 		fi := p.Info(fn)
-		var appends, resets []*ssa.Store
+		var appends []*ssa.Store
+		var resets []ssa.Instruction
 		var appendCalls []ssa.Instruction // calls of a shared helper that appends one valid cursor
+		isReset := func(st *ssa.Store) bool {
+			if isNilConst(st.Val) {
+				return true
+			}
+			if sl, ok := strip(st.Val).(*ssa.Slice); ok && sl.High != nil && isConstInt(0)(sl.High) {
+				return true
+			}
+			if ms, ok := strip(st.Val).(*ssa.MakeSlice); ok && isConstInt(0)(ms.Len) {
+				return true
+			}
+			return false
+		}
+		// calleeMust: in is a plain call of a same-package function (shared by the two positioning
+		// operations) that executes an instruction satisfying pred on every path to its return
+		calleeMust := func(in ssa.Instruction, pred func(h *ssa.Function, x ssa.Instruction) bool) bool {
+			call, ok := in.(*ssa.Call)
+			if !ok || call.Call.StaticCallee() == nil || p.helperCall(in) != nil {
+				return false
+			}
+			h := call.Call.StaticCallee()
+			if h.Blocks == nil || h.Package() != fn.Package() || h == fn {
+				return false
+			}
+			hfi := p.Info(h)
+			for _, ret := range hfi.Returns() {
+				if !hfi.MustPrecede(ret, func(x ssa.Instruction) bool { return pred(h, x) }) {
+					return false
+				}
+			}
+			return len(hfi.Returns()) > 0
+		}
 		for _, in := range fi.Instrs {
 			cc := callOf(in)
 			if cc == nil || cc.StaticCallee() == nil || p.helperCall(in) != nil {
@@ -29,6 +61,16 @@ func clMergeHeapReset(c *Ctx) {
 				continue
 			}
 			hfi := p.Info(h)
+			if calleeMust(in, func(h *ssa.Function, x ssa.Instruction) bool {
+				st, ok := x.(*ssa.Store)
+				if !ok {
+					return false
+				}
+				f, _ := addrField(st.Addr)
+				return f == fH && isReset(st)
+			}) {
+				resets = append(resets, in)
+			}
 			for _, st := range p.storesTo(h, fH) {
 				if call, ok := strip(st.Val).(*ssa.Call); ok && isBuiltin(call, "append") {
 					valid := p.Func("skiplist", "Iterator", "Valid")
@@ -42,15 +84,7 @@ func clMergeHeapReset(c *Ctx) {
 				appends = append(appends, st)
 				continue
 			}
-			if isNilConst(st.Val) {
-				resets = append(resets, st)
-				continue
-			}
-			if sl, ok := strip(st.Val).(*ssa.Slice); ok && sl.High != nil && isConstInt(0)(sl.High) {
-				resets = append(resets, st)
-				continue
-			}
-			if ms, ok := strip(st.Val).(*ssa.MakeSlice); ok && isConstInt(0)(ms.Len) {
+			if isReset(st) {
 				resets = append(resets, st)
 			}
 		}
@@ -80,15 +114,30 @@ func clMergeHeapReset(c *Ctx) {
 		c.Check(ok, fn, firstApp, "re-positioning resets the merge heap", "the cursors of the previous positioning stay in the heap: repositioning during a scan yields duplicates and walks stale cursors past the tail")
 		// heap.Init after all pushes, then Next establishes the first element
 		var hinit, nx ssa.Instruction
+		mnext := p.Func("skiplist", "MergeIterator", "Next")
+		isInit := func(x ssa.Instruction) bool {
+			cc := callOf(x)
+			return cc != nil && cc.StaticCallee() != nil && cc.StaticCallee().String() == "container/heap.Init"
+		}
 		for _, in := range fi.Instrs {
-			if cc := callOf(in); cc != nil && cc.StaticCallee() != nil && cc.StaticCallee().String() == "container/heap.Init" {
+			if isInit(in) {
 				hinit = in
 			}
-			if p.IsCall(in, p.Func("skiplist", "MergeIterator", "Next")) {
+			if p.IsCall(in, mnext) {
 				nx = in
 			}
 		}
 		okInit := hinit != nil && nx != nil && fi.Dominates(hinit, nx)
+		if hinit == nil && nx == nil {
+			// both steps in one shared helper: Init, then Next, on every path
+			for _, in := range fi.Instrs {
+				if calleeMust(in, func(h *ssa.Function, x ssa.Instruction) bool {
+					return p.IsCall(x, mnext) && p.Info(h).MustPrecede(x, isInit)
+				}) {
+					hinit, nx, okInit = in, in, true
+				}
+			}
+		}
 		for _, a := range apps {
 			if hinit == nil || fi.Reaches(hinit, a) {
 				okInit = false
@@ -487,6 +536,9 @@ func clAssembleTable(c *Ctx) {
 					}
 					if isBuiltin(ci, "len") {
 						return ival{kind: 'i', i: int64(len(segs))}, true
+					}
+					if p.helperCall(ci) != nil {
+						return ival{}, false // a private helper of Assemble: interpreted in place
 					}
 					sig := ci.Call.Signature()
 					if sig.Results().Len() == 0 {
